@@ -122,3 +122,63 @@ let () =
       let fin = if ex = "K" then true else c11_final_ok (nat_of_int (int_of_string ex)) (unl = "1") d in
       if safe && fin then "ok" else Printf.sprintf "%s%s" (if safe then "" else "not-safe ") (if fin then "" else "final-state-wrong")
     | _ -> "?args")
+
+(* ---- C11: --replace-input started in any directory, as part of any job (Sys/ReplaceDirModel.v, ReplaceDirSpec.v) *)
+(* names: 1 = <in>, 2 = <in>.~qpdf-orig, 3 = <in>.~qpdf-temp#, 4 = <in>.~qpdf-orig#
+   pre: "-" or name:hex;name:hex   dirs: "-" or name,name *)
+let parse_pre (s : string) : (nat * n list) list =
+  if s = "-" then [] else
+    List.map (fun it -> match String.split_on_char ':' it with
+        | [name; hx] -> (nat_of_int (int_of_string name), unhexbytes hx)
+        | _ -> failwith "pre") (String.split_on_char ';' s)
+let parse_dirs (s : string) : nat list =
+  if s = "-" then [] else List.map (fun x -> nat_of_int (int_of_string x)) (String.split_on_char ',' s)
+
+let c11d_handler verbose args = match args with
+  | [ck; b; rounds; pops; wmain; wother; wx0; quiet; lens; hx; orig; pre; dirs; faults] ->
+    let cks = parse_checks ck in
+    let origb = unhexbytes orig in
+    let j = { c11d_inp = nat_of_int 1; c11d_kept = nat_of_int 2; c11d_scratch = nat_of_int 4; c11d_temp = nat_of_int 3;
+              c11d_wmain = (wmain = "1"); c11d_wother = (wother = "1"); c11d_quiet = (quiet = "1"); c11d_chunks = chunks_of lens hx } in
+    let preb = parse_pre pre in
+    let dirl = parse_dirs dirs in
+    let one t =
+      let (fo, cap, glitch) = parse_fault t in
+      let en = { en_B = nat_of_int (int_of_string b); en_fault = fo; en_initcap = cap;
+                 en_exit_rounds = nat_of_int (int_of_string rounds); en_ck = cks;
+                 en_md5_pops = nat_of_int (int_of_string pops); en_glitch = glitch } in
+      result_str verbose (c11d_run en (wx0 = "1") dirl j origb preb) in
+    String.concat " " (List.map one (String.split_on_char ',' faults))
+  | _ -> "?args"
+
+let () =
+  register "c11drun" (c11d_handler false);
+  register "c11dtrace" (c11d_handler true);
+  (* c11dobs exit|K warned unlink_failed in kept scratch temp kept_same scratch_same *)
+  register "c11dobs" (fun args -> match args with
+    | [ex; warned; unl; a; k; s; t; ksame; ssame] ->
+      let o = { c11d_o_in = cls_of a; c11d_o_kept = cls_of k; c11d_o_scratch = cls_of s; c11d_o_temp = cls_of t;
+                c11d_o_kept_same = (ksame = "1"); c11d_o_scratch_same = (ssame = "1") } in
+      let safe = c11d_safe o in
+      let fin = if ex = "K" then true else c11d_final_ok (nat_of_int (int_of_string ex)) (warned = "1") (unl = "1") o in
+      if safe && fin then "ok" else Printf.sprintf "%s%s" (if safe then "" else "not-safe ") (if fin then "" else "final-state-wrong")
+    | _ -> "?args")
+
+(* ---- C10: the files a job processes and its exit status (Sys/JobWarnModel.v, JobWarnSpec.v) *)
+(* file: two characters, open_warn has_att ("10"); lists: comma separated or "-" *)
+let c10j_file_of (s : string) : c10j_file = { c10j_open_warn = (s.[0] = '1'); c10j_has_att = (s.[1] = '1') }
+let c10j_files_of (s : string) : c10j_file list = if s = "-" then [] else List.map c10j_file_of (String.split_on_char ',' s)
+let c10j_opt_of (s : string) : c10j_file option = if s = "-" then None else Some (c10j_file_of s)
+let () =
+  (* c10jexit main late pages uo attach enc split decode wx0  ->  model-exit spec-exit reported *)
+  register "c10jexit" (fun args -> match args with
+    | [main; late; pages; uo; attach; enc; split; decode; wx0] ->
+      let j = { c10j_main = c10j_opt_of main; c10j_main_late = (late = "1"); c10j_pages = c10j_files_of pages;
+                c10j_uo = c10j_files_of uo; c10j_attach = c10j_files_of attach; c10j_enc = c10j_opt_of enc;
+                c10j_split = (split = "1"); c10j_decode = (decode = "1"); c10j_wx0 = (wx0 = "1") } in
+      Printf.sprintf "%d %d %d" (int_of_nat (c10j_exit j)) (int_of_nat (c10j_spec_exit j)) (if c10j_reported j then 1 else 0)
+    | _ -> "?args");
+  (* c10jobs exit warning_lines wx0 *)
+  register "c10jobs" (fun args -> match args with
+    | [ex; wl; wx0] -> if c10j_obs_ok (nat_of_int (int_of_string ex)) (wl = "1") (wx0 = "1") then "ok" else "exit-status-does-not-match-warnings"
+    | _ -> "?args")
